@@ -86,7 +86,8 @@ abbrev cfgWsd : Cfg := { disc := .bag, drained := true, checkEmpty := true, fail
 abbrev cfgMpmc : Cfg := { disc := .fifo, capacity := 0, drained := true, emptyOkInFlight := true }
 /-- Model/Chan.lean (C11) -/
 abbrev cfgChan (cap : Nat) (complete : Bool) : Cfg :=
-  { disc := .fifo, capacity := cap, drained := complete, checkEmpty := false, perProducerFifo := true }
+  { disc := .fifo, capacity := cap, drained := complete, checkEmpty := true, emptyOkInFlight := true,
+    perProducerFifo := true }
 /-- Model/MultiChan.lean (C11) -/
 abbrev cfgMultiChan (cap : Nat) (complete : Bool) : Cfg :=
   { disc := .fifo, capacity := cap, drained := complete, checkEmpty := false }
@@ -127,8 +128,8 @@ theorem check_sound_mpmc (ops : List Op) (hW : WellFormed ops) (hL : Linearizabl
 
 theorem check_sound_chan (cap : Nat) (complete : Bool) (ops : List Op) (hW : WellFormed ops)
     (hL : Linearizable (cfgChan cap complete) ops) :
-    check { disc := .fifo, capacity := cap, drained := complete, checkEmpty := false,
-            perProducerFifo := true } ops = none :=
+    check { disc := .fifo, capacity := cap, drained := complete, checkEmpty := true,
+            emptyOkInFlight := true, perProducerFifo := true } ops = none :=
   check_sound (cfgChan cap complete) ops hW hL
 
 theorem check_sound_multiChan (cap : Nat) (complete : Bool) (ops : List Op) (hW : WellFormed ops)
